@@ -88,8 +88,19 @@ class Frame(object):
             and e.fn[2] == place)
 
     def is_stream_read(self, e):
-        return e.kind == 'call' and id(e.node) in self.raw and \
-            e.method() in ('read', 'recv')
+        if not (e.kind == 'call' and id(e.node) in self.raw and
+                e.method() in ('read', 'recv')):
+            return False
+        # the call-graph could not type the receiver; the path summary may
+        # know better: an object built on this path (a packet made by the
+        # class looked up in the decoder table, the frame buffer) is not
+        # the byte stream
+        recv = e.fn[1] if e.fn[0] == 'attr' else (
+            e.fn[2] if e.fn[0] == 'fn' and len(e.fn) > 2 else None)
+        if recv is not None and recv != self.stream and \
+                recv[0] in ('obj', 'call'):
+            return False
+        return True
 
     def lin(self, t, env):
         """linear form of an integer-valued term"""
@@ -257,6 +268,37 @@ def check_loop(fr, lp, A0, prob, out):
             c0 = fr.lin(pre[name], {})
             # c = c0 + k * (A - A0)
             inv[ph] = c0 + (Lin.sym('A') - A0).scale(k)
+        elif name in pre and pre[name] is not None:
+            # a counter that is re-measured rather than advanced: at the end
+            # of every continuing iteration it is the length of the buffer,
+            # and it was before the loop -- so it is A throughout
+            # ... or, more generally, c + k * A for a c made of the length
+            # prefix and constants only
+            found = None
+            for k in (1, -1):
+                cs = []
+                for q, dA, reqs in per:
+                    if q.outcome[0] not in ('fall', 'continue'):
+                        continue
+                    end = q.env.get(name)
+                    if end is None:
+                        cs = None
+                        break
+                    frs = Frame(fr.buf, fr.stream, fr.L, fr.raw)
+                    frs.lens.update(fr.lens)
+                    frs.chunks.update(fr.chunks)
+                    a_end = frs.walk(q.flat(('call',)), Lin.sym('A'), {}, [])
+                    c = frs.lin(end, {}) - a_end.scale(k)
+                    if any(sym_ != 'L' for sym_, v in c.coef.items() if v):
+                        cs = None
+                        break
+                    cs.append(c)
+                if cs and all(c == cs[0] for c in cs) and \
+                        fr.lin(pre[name], {}) == cs[0] + A0.scale(k):
+                    found = cs[0] + Lin.sym('A').scale(k)
+                    break
+            if found is not None:
+                inv[ph] = found
 
     if os.environ.get("RE_DEBUG"): print("INV", inv, "phis", phis, "pre", {k: v is not None for k, v in pre.items()})
     # evaluate under the invariant, A symbolic
